@@ -133,6 +133,21 @@ def write_replay(prop, seed, events, inc, minimised):
     return path
 
 
+def witness_path(prop, sig):
+    return os.path.join(VERIF, 'findings', prop, hashlib.sha1(sig.encode()).hexdigest()[:12] + '.json')
+
+
+def save_witness(prop, replay_path):
+    """Development command (never run by a check): copy a minimised replay into the committed findings directory."""
+    with open(replay_path) as f:
+        r = json.load(f)
+    wp = witness_path(prop, r['signature'])
+    os.makedirs(os.path.dirname(wp), exist_ok=True)
+    with open(wp, 'w') as f:
+        json.dump({'property': prop, 'signature': r['signature'], 'detail': r['detail'], 'events': r['events']}, f, indent=1)
+    return wp
+
+
 def replay_file(prop, path):
     with open(path) as f:
         r = json.load(f)
@@ -294,6 +309,18 @@ def check(prop, tier, seed, workers=None, runs=None):
         write_evidence(prop, tier, seed, agg, 0, {'harness_error': agg['harness'][:2000]})
         print('HARNESS ' + agg['harness'])
         return 2
+    # committed witnesses of known findings are replayed on every run, so that each listed finding is either
+    # reported (it still fires) or visibly absent (it no longer reproduces on this tree)
+    for sig in sorted(agg['known']):
+        wp = witness_path(prop, sig)
+        if os.path.exists(wp):
+            with open(wp) as f:
+                wev = json.load(f)['events']
+            wrec = Eng().replay(wev)
+            if any(i.sig == sig for i in wrec.incidents):
+                agg['known_hit'][sig] += 1
+            else:
+                print(f'NOTE known finding no longer reproduces from its witness: {sig}')
     for sig, n in sorted(agg['known_hit'].items()):
         print(f'KNOWN-FINDING: property={prop} {agg["known"][sig]} [signature={sig} hits={n}]')
     violations = 0
@@ -340,11 +367,15 @@ def main(argv=None):
     ap.add_argument('--runs', type=int, default=None)
     ap.add_argument('--replay')
     ap.add_argument('--expect')
+    ap.add_argument('--save-witness', help='development: store this replay file as the committed witness of its signature')
     ap.add_argument('--digest', action='store_true', help='print the batch digest only (determinism self-test)')
     a = ap.parse_args(argv)
     if a.prop not in ENGINES:
         print(f'unknown or not-applicable property {a.prop}')
         return 2
+    if a.save_witness:
+        print(save_witness(a.prop, a.save_witness))
+        return 0
     if a.replay:
         r, rec = replay_file(a.prop, a.replay)
         sigs = [i.sig for i in rec.incidents]
